@@ -8,7 +8,7 @@ separators=(",", ":"))`), which is all the code ever looks at apart from the
 truth value of `_read_user` (`truthy`).  The two files are
 
   * the store  `config/settings.json`   (`World.store`, `none` = file absent),
-    written only by the settings object (`_write`, settings.py:114-116);
+    written only by the settings object (`_write`, settings.py:114-119);
   * the user's override file `~/.simulaqron.json` (`u : Option Store`), never
     written by the code.
 
@@ -16,10 +16,12 @@ truth value of `_read_user` (`truthy`).  The two files are
 state it leaves behind *and* an `Outcome`; an exception is an explicit outcome,
 never a totalised default.
 
-The model follows the code with the `fix:` commit on branch `fix-c18`
+The model follows the code with the `fix:` commit of branch `fix-c18`
 (`_write` serialises before it opens the file, `_set_setting` rejects a value
 that cannot be stored before it touches anything): a rejected `set` changes
-neither the memory nor the store.
+neither the memory nor the store.  Line numbers are those of the fixed file.
+(Before the fix a rejected value stayed in memory and `_write` left
+`settings.json` truncated: every later process died in `json.load`.)
 -/
 namespace SqVerif.Settings
 
@@ -69,8 +71,8 @@ deriving Repr, DecidableEq
 
 inductive Outcome
   | ok
-  | keyError    -- `_get_setting` settings.py:119-122
-  | typeError   -- the value cannot be serialised (rejected before any change)
+  | keyError    -- `_get_setting` settings.py:121-125
+  | typeError   -- `json.dumps(value)` settings.py:130: the value cannot be stored (raised before any change)
 deriving Repr, DecidableEq
 
 /-- settings.py:105-108 `if os.path.exists(user file): self._config.update(json.load(f))` -/
@@ -103,10 +105,10 @@ def defaultSettings (D : Store) (u : Option Store) (w : World) : World × Outcom
   let r := updateSettings D u true w
   ({ mem := r.1.mem, store := some r.1.mem }, r.2)             -- :112 `self._write()`
 
-/-- settings.py:125-127 `_set_setting(k, v)` for a value that can be serialised -/
+/-- settings.py:128-132 `_set_setting(k, v)` for a value that can be serialised -/
 def setSetting (k : Key) (v : Value) (w : World) : World × Outcome :=
-  let m := put k v w.mem                                       -- :126
-  ({ mem := m, store := some m }, .ok)                         -- :127 `self._write()` dumps ALL of memory
+  let m := put k v w.mem                                       -- :131
+  ({ mem := m, store := some m }, .ok)                         -- :132 `self._write()` dumps ALL of memory
 
 /-- `Config()` in a fresh interpreter: `_config = {}` (settings.py:58), then
 `__init__` = `update_settings()` (:87-88) -/
@@ -124,7 +126,7 @@ deriving Repr, DecidableEq
 
 def step (D : Store) (u : Option Store) (w : World) : Op → World × Outcome
   | .set k v => setSetting k v w
-  | .setBad _ => (w, .typeError)
+  | .setBad _ => (w, .typeError)                               -- :130 raises, nothing was touched
   | .reset => defaultSettings D u w
   | .reload => updateSettings D u false w
   | .restart => boot D u w.store
